@@ -62,6 +62,111 @@ func nList(xs []int) string {
 	return "[" + strings.Join(p, "; ") + "]"
 }
 
+type dirPredicates struct {
+	root, meth []int
+	ctx        map[int][]int
+	str        []string
+}
+
+// evalDirectivePredicates runs the directive package of the working tree on its whole (finite) domain
+func evalDirectivePredicates(repo string, n int) dirPredicates {
+	dir, err := os.MkdirTemp("", "go2coq-eval-")
+	if err != nil {
+		panic(failure{err.Error()})
+	}
+	defer os.RemoveAll(dir)
+	gomod, err := os.ReadFile(filepath.Join(repo, "go.mod"))
+	if err != nil {
+		panic(failure{err.Error()})
+	}
+	// same requirements and replacements as the repository, plus the repository itself from the working tree
+	var b strings.Builder
+	b.WriteString("module go2coqeval\n\n")
+	inBlock := false
+	for _, l := range strings.Split(string(gomod), "\n") {
+		t := strings.TrimSpace(l)
+		switch {
+		case strings.HasPrefix(t, "module "):
+		case strings.HasPrefix(t, "go ") || strings.HasPrefix(t, "toolchain "):
+			b.WriteString(l + "\n")
+		case strings.HasPrefix(t, "require (") || strings.HasPrefix(t, "replace ("):
+			inBlock = true
+			b.WriteString(l + "\n")
+		case inBlock:
+			b.WriteString(l + "\n")
+			if t == ")" {
+				inBlock = false
+			}
+		case strings.HasPrefix(t, "require ") || strings.HasPrefix(t, "replace "):
+			b.WriteString(l + "\n")
+		}
+	}
+	b.WriteString("\nrequire github.com/jsightapi/jsight-api-core v0.0.0\nreplace github.com/jsightapi/jsight-api-core => " + repo + "\n")
+	if err := os.WriteFile(filepath.Join(dir, "go.mod"), []byte(b.String()), 0o644); err != nil {
+		panic(failure{err.Error()})
+	}
+	if sum, err := os.ReadFile(filepath.Join(repo, "go.sum")); err == nil {
+		_ = os.WriteFile(filepath.Join(dir, "go.sum"), sum, 0o644)
+	}
+	prog := fmt.Sprintf(`package main
+
+import (
+	"fmt"
+
+	"github.com/jsightapi/jsight-api-core/directive"
+)
+
+func main() {
+	const n = %d
+	for i := 0; i < n; i++ {
+		e := directive.Enumeration(i)
+		fmt.Printf("str %%d %%q\n", i, e.String())
+		fmt.Printf("root %%d %%v\n", i, e.IsAllowedForRootContext())
+		fmt.Printf("meth %%d %%v\n", i, e.IsHTTPRequestMethod())
+		for j := 0; j < n; j++ {
+			fmt.Printf("ctx %%d %%d %%v\n", i, j, e.IsAllowedForDirectiveContext(directive.Enumeration(j)))
+		}
+	}
+}
+`, n)
+	if err := os.WriteFile(filepath.Join(dir, "main.go"), []byte(prog), 0o644); err != nil {
+		panic(failure{err.Error()})
+	}
+	cmd := exec.Command("go", "run", ".")
+	cmd.Dir = dir
+	cmd.Env = append(os.Environ(), "GOFLAGS=-mod=mod")
+	var stderr strings.Builder
+	cmd.Stderr = &stderr
+	out, err := cmd.Output()
+	if err != nil {
+		panic(failure{"evaluating the directive predicates failed (does the tree compile?): " + err.Error() + "\n" + stderr.String()})
+	}
+	res := dirPredicates{ctx: map[int][]int{}, str: make([]string, n)}
+	for _, l := range strings.Split(string(out), "\n") {
+		f := strings.SplitN(l, " ", 4)
+		switch {
+		case len(f) == 3 && f[0] == "str":
+			i, _ := strconv.Atoi(f[1])
+			v, err := strconv.Unquote(f[2])
+			if err != nil {
+				v = f[2]
+			}
+			res.str[i] = v
+		case len(f) == 3 && f[0] == "root" && f[2] == "true":
+			i, _ := strconv.Atoi(f[1])
+			res.root = append(res.root, i)
+		case len(f) == 3 && f[0] == "meth" && f[2] == "true":
+			i, _ := strconv.Atoi(f[1])
+			res.meth = append(res.meth, i)
+		case len(f) == 4 && f[0] == "ctx" && f[3] == "true":
+			i, _ := strconv.Atoi(f[1])
+			j, _ := strconv.Atoi(f[2])
+			res.ctx[i] = append(res.ctx[i], j)
+		}
+	}
+	return res
+}
+
 func genDirectiveTables(repo string) string {
 	files := parseDir(filepath.Join(repo, "directive"))
 	// Enumeration constants in iota order
@@ -152,33 +257,24 @@ func genDirectiveTables(repo string) string {
 		}
 		return res
 	}
-	root := caseSet("IsAllowedForRootContext")
-	meth := caseSet("IsHTTPRequestMethod")
-
-	tbl, ok := findVar(files, "directiveAllowedToDirectiveContext").(*ast.CompositeLit)
-	if !ok {
-		failf(nil, "directiveAllowedToDirectiveContext not found")
+	_ = caseSet
+	// the three finite predicates of the package are EVALUATED, not parsed: a small program linked
+	// against the working tree prints IsAllowedForRootContext, IsHTTPRequestMethod and
+	// IsAllowedForDirectiveContext for every (pair of) Enumeration value(s) - whatever shape the
+	// source gives them (switch, table literal, helper functions)
+	ev := evalDirectivePredicates(repo, len(enumNames))
+	root, meth := ev.root, ev.meth
+	for i, kw := range ev.str {
+		if kw != ss[i] {
+			failf(ssExpr, "Enumeration(%d).String() = %q but directive.ss[%d] = %q", i, kw, i, ss[i])
+		}
 	}
+
 	var rows []string
-	for _, e := range tbl.Elts {
-		kv := e.(*ast.KeyValueExpr)
-		k, ok := idx[src(kv.Key)]
-		if !ok {
-			failf(kv, "unknown Enumeration %s", src(kv.Key))
+	for k := range enumNames {
+		if cs := ev.ctx[k]; len(cs) > 0 {
+			rows = append(rows, fmt.Sprintf("(%d, %s)", k, nList(cs)))
 		}
-		call, ok := kv.Value.(*ast.CallExpr)
-		if !ok || src(call.Fun) != "createEnumerationSet" {
-			failf(kv, "unexpected table value")
-		}
-		var cs []int
-		for _, a := range call.Args {
-			i, ok := idx[src(a)]
-			if !ok {
-				failf(a, "unknown Enumeration %s", src(a))
-			}
-			cs = append(cs, i)
-		}
-		rows = append(rows, fmt.Sprintf("(%d, %s)", k, nList(cs)))
 	}
 
 	// dispatch table of core.NewJApiCore
@@ -654,6 +750,35 @@ func genInventory(repo string) string {
 		}
 		d := strings.ReplaceAll(strings.ReplaceAll(it.detail, "\n", " "), "\t", " ")
 		fmt.Fprintf(&b, "  (%s, %s, %s, %s)%s\n", coqString(it.kind), coqString(it.pkg), coqString(it.fn), coqString(d), sep)
+	}
+	b.WriteString("].\n\n")
+	// normalised keys: what a site IS, not where exactly it stands - an unchecked assertion is keyed by
+	// package and asserted type, a panic / recover / sync.Once by package, an external call by package
+	// and callee, a package-level variable by its name; a map iteration stays tied to its function
+	// (its classification in Spec/MapRanges.v is per function)
+	b.WriteString("(* (kind, package, normalised detail) *)\nDefinition inventory_keys : list (string * string * string) := [\n")
+	for i, it := range items {
+		sep := ";"
+		if i == len(items)-1 {
+			sep = ""
+		}
+		d := strings.ReplaceAll(strings.ReplaceAll(it.detail, "\n", " "), "\t", " ")
+		key := ""
+		switch it.kind {
+		case "assert":
+			if j := strings.LastIndex(d, ".("); j >= 0 {
+				key = d[j:]
+			} else {
+				key = d
+			}
+		case "panic", "recover", "once":
+			key = ""
+		case "maprange":
+			key = it.fn
+		default:
+			key = d
+		}
+		fmt.Fprintf(&b, "  (%s, %s, %s)%s\n", coqString(it.kind), coqString(it.pkg), coqString(key), sep)
 	}
 	b.WriteString("].\n")
 	return b.String()
